@@ -91,6 +91,8 @@ def is_declined(exc, op_kind):
 
 
 def describe(exc):
+    if isinstance(exc, RecursionError):
+        return "RecursionError@(stack-depth dependent frame)"
     fr = innermost_lo_frame(exc)
     where = "%s:%s" % (fr[0], fr[1]) if fr else "outside-library"
     return "%s@%s" % (type(exc).__name__, where)
